@@ -56,6 +56,25 @@ CHECKS = {
         note=TB + "; memory contents are read through the simulator from the public memory-map resource.",
         technique="TLA+ spec + TLC model checking; edge tour on the real design; TLC trace validation",
         design="5 (C15)"),
+    "C04": dict(
+        text=("TLC model-checks specs/CsrMux_MC.tla on curated layouts: with every input every cycle "
+              "(element.r_stb exactness, bus.r_data zero unless the previous cycle read a readable chunk) "
+              "and with a protocol-conforming environment, where independent history variables establish "
+              "that read data is the slice of the value presented at the first-chunk cycle and that the "
+              "specification leaves no bit unknown. TLC -simulate behaviours are replayed on the real "
+              "csr.Multiplexer for every shadow_overlaps, and random layouts/schedules recorded from the "
+              "real design are validated by TLC against specs/CsrMux.tla."),
+        note=TB + "; data after a protocol violation is deliberately unconstrained (U); layouts that cannot be elaborated are C19's.",
+        technique="TLA+ spec + TLC model checking; TLC-generated behaviours replayed on the real design; TLC trace validation",
+        design="5 (C04/C05), appendix A"),
+    "C05": dict(
+        text=("Same specification and legs as C04, write side: element.w_stb exactly one cycle after a "
+              "write to the last address (all inputs), write data = concatenation of this transaction's "
+              "chunks (history variable), nothing else strobed; plus a differential run feeding one "
+              "conforming schedule to instances that differ only in shadow_overlaps."),
+        note=TB + "; same as C04.",
+        technique="TLA+ spec + TLC model checking; TLC-generated behaviours replayed on the real design; TLC trace validation",
+        design="5 (C04/C05), appendix A"),
 }
 
 PENDING = "check not built yet in this round; see DESIGN.md section 13 for the build order"
